@@ -28,14 +28,17 @@ for ni in range(0, 4):
             real = str(decimal.Decimal(t))
             if real != got:
                 bad += 1; print('MISMATCH Decimal', t, real, got)
-for fmt, L in (('%y%m%d', 6), ('%y%m', 4), ('%y%m%d%H%M', 10), ('%y%m%d%H%M%S', 12)):
+E.CONFIG['K'] = 2
+for fmt, L, lo, hi in (('%y%m%d', 6, 48, 57), ('%y%m', 4, 48, 57), ('%y%m%d%H%M', 10, 48, 57), ('%y%m%d%H%M%S', 12, 48, 57),
+                       ('%y%m%d', 6, 0, 0x10ffff), ('%y%m%d', 5, 0, 0x10ffff), ('%y%m%d', 4, 32, 57), ('%Y%m%d', 8, 0, 0x10ffff), ('%y%m%d%H%M', 9, 32, 57),
+                       ('%y%m%d%H%M%S', 11, 0, 0x10ffff), ('%y%m', 3, 0, 0x10ffff), ('%y%m%d', 7, 32, 57)):
     def body():
-        x, c = E.symstr(L, 'x', 48, 57)
+        x, c = E.symstr(L, 'x', lo, hi)
         try:
             return x, ('ret', E.m_strptime(x, fmt))
         except ValueError:
             return x, ('ValueError', None)
-    for st, out in E.explore(body, max_paths=300, timeout=60):
+    for st, out in E.explore(body, max_paths=600, timeout=90):
         if st is None:
             break
         if out[0] != 'ret':
